@@ -48,6 +48,39 @@ def canon_state(st):
     return out
 
 
+def canon_allow(a):
+    if a is None:
+        return None
+    return [a["on"], sorted(a["ids"])]
+
+
+def allow_edges(workers=4, timeout=600):
+    """TLC on the allow-list model (SyncAllow over the tiny protocol model)."""
+    cfg = write_cfg(f"allow_{os.getpid()}.cfg", """SPECIFICATION ASpec
+CONSTANTS
+  Clients = {1, 2}
+  Rnd = {90}
+  MaxPer <- Per22
+  MaxTotal = 2
+  MaxDay = 0
+  SnapDays = 1
+  SnapVersions = 2
+  SnapToks = {1}
+  SearchLen = 5
+  Lists <- AllLists
+VIEW aview
+INVARIANTS TypeOK Inv_Ghost Inv_C01
+PROPERTIES P_C16
+ACTION_CONSTRAINT EmitEdge
+CHECK_DEADLOCK FALSE
+""")
+    out = tlc("MC_Allow.tla", cfg, workers=workers, timeout=timeout)
+    if not tlc_ok(out):
+        raise ToolError("TLC reports an error on the allow-list model:\n" + ("\n".join(tlc_error_summary(out)) or out[-3000:]))
+    edges = [parse_tla_string_tuple(l, "EDGE") for l in out.splitlines() if l.startswith('<<"EDGE"')]
+    return edges, tlc_stats(out), dict(SnapDays=1, SnapVersions=2, Clients="{1, 2}")
+
+
 def model_edges(name, workers=8, timeout=900):
     """Run TLC on the L2 model; returns (edges, stats, tlc_output_tail)."""
     c = MC_CONFIGS[name]
@@ -77,25 +110,28 @@ class Graph:
             if e["req"]["lvl"] == drop:
                 continue
             if "_pk" not in e:
-                e["_pk"] = json.dumps([canon_state(e["pre"]), e["d0"]])
-                e["_qk"] = json.dumps([canon_state(e["post"]), e["d1"]])
+                e["_pk"] = json.dumps([canon_state(e["pre"]), e["d0"], canon_allow(e.get("a0"))])
+                e["_qk"] = json.dumps([canon_state(e["post"]), e["d1"], canon_allow(e.get("a1"))])
             pk, qk = e["_pk"], e["_qk"]
-            rec = dict(pre=pk, post=qk, req=e["req"], resp=e["resp"], poststate=e["post"], d1=e["d1"], loop=(pk == qk))
+            rec = dict(pre=pk, post=qk, req=e["req"], resp=e["resp"], poststate=e["post"], d1=e["d1"], loop=(pk == qk), a1=e.get("a1"))
             rec["id"] = len(self.edges)
             self.edges.append(rec)
             self.out[pk].append(rec)
             self.nodes.setdefault(pk, None)
             self.nodes.setdefault(qk, None)
         self.level = level
+        self.has_allow = any("a0" in e for e in edges[:1])
 
     def init_key(self, nclients):
         absent = [[False, 0, [], []] for _ in range(nclients)]
-        return json.dumps([absent, 0])
+        return json.dumps([absent, 0, canon_allow({"on": False, "ids": []} if self.has_allow else None)])
 
 
 def edge_step(e, level):
     req, resp = e["req"], e["resp"]
     op = req["op"]
+    if op == "SetAllow":
+        return {"op": "SetAllow", "allow": sorted(e["a1"]["ids"]), "exp": {"kind": "reopened", "same": True}}
     if op in ("Tick", "Reopen"):
         st = {"op": op}
         st["exp"] = {"kind": "tick" if op == "Tick" else "reopened", "same": True}
@@ -212,7 +248,7 @@ def plan_tours(g, nclients, maxlen=600, rng=None):
     return tours
 
 
-def tours_to_jobs(tours, g, nclients, cfg, backend, driver, run0, prefix, walk=True):
+def tours_to_jobs(tours, g, nclients, cfg, backend, driver, run0, prefix, walk=True, twin=False):
     jobs = []
     for k, t in enumerate(tours):
         steps = [edge_step(e, g.level) for e in t]
@@ -222,7 +258,7 @@ def tours_to_jobs(tours, g, nclients, cfg, backend, driver, run0, prefix, walk=T
                 steps.append({"op": "Walk", "c": c, "from": {"sym": "snap"}})
         jobs.append({"id": f"{prefix}{k}", "run": run0 + k, "backend": backend, "driver": driver,
                      "cfg": {"days": cfg["SnapDays"], "versions": cfg["SnapVersions"]},
-                     "nclients": nclients, "steps": steps, "first_free": 1000, "kind": "tour"})
+                     "nclients": nclients, "steps": steps, "first_free": 1000, "kind": "tour", "twin": twin})
     return jobs
 
 
